@@ -235,6 +235,19 @@ def ocaml_build(name, model, driver, timeout=900):
         return rc == 0, out, exe
 
 
+def _big_stack():
+    """extracted code recurses over long lists (1 MiB passwords): lift the stack limit for the runner"""
+    import resource
+    try:
+        resource.setrlimit(resource.RLIMIT_STACK, (resource.RLIM_INFINITY, resource.RLIM_INFINITY))
+    except (ValueError, OSError):
+        try:
+            soft, hard = resource.getrlimit(resource.RLIMIT_STACK)
+            resource.setrlimit(resource.RLIMIT_STACK, (hard, hard))
+        except (ValueError, OSError):
+            pass
+
+
 def run_lines(exe, lines, timeout=900, shards=None, env=None):
     """Feed lines to a line-protocol executable (sharded over the cores); return output lines in order."""
     if not lines:
@@ -244,7 +257,7 @@ def run_lines(exe, lines, timeout=900, shards=None, env=None):
     procs = []
     for ch in chunks:
         p = subprocess.Popen(exe if isinstance(exe, list) else [exe], stdin=subprocess.PIPE, stdout=subprocess.PIPE,
-                             stderr=subprocess.PIPE, text=True, env=env or ENV)
+                             stderr=subprocess.PIPE, text=True, env=env or ENV, preexec_fn=_big_stack)
         procs.append((p, ch))
     outs = []
     import threading
